@@ -363,7 +363,7 @@ theorem validate_accepts_honest [DecidableEq H] (cfg : Cfg) (f : HashFns H) (rs 
   simp only [honestUnit] at hdata hsigv ⊢
   simp only [hdup, Bool.false_eq_true, if_false, horig, hdata, hsigv]
 
-/-! ### the defects of the pinned tree, as theorems -/
+/-! ### the defects repaired by 8f80b72 and d76716c, as theorems about the flags -/
 
 theorem pbBytesField_length (b : Bytes) : b.length + 2 ≤ (pbBytesField b).length := by
   have := putUvarint_length_pos (UInt64.ofNat b.length)
@@ -393,7 +393,7 @@ theorem verifyDataShards_single [DecidableEq H] (cfg : Cfg) (f : HashFns H) (u :
   split <;> simp
 
 /-- Lead L6b as a theorem: when sharding.go commits to raw shards and the validator verifies the
-protobuf encoding (the pinned tree), EVERY unit of CreatePropellerUnits fails the validator's
+protobuf encoding (the tree before 8f80b72), EVERY unit of CreatePropellerUnits fails the validator's
 Merkle check (ideal hash: no collision can rescue it). -/
 theorem created_unit_rejected_when_leaf_encodings_differ [DecidableEq H] (cfg : Cfg) (f : HashFns H)
     (hI : Ideal f) (rs : RS) (sg : SigScheme H) (C P : Bytes) (nonce : Nat) (msg : Bytes) (k p i : Nat)
